@@ -12,7 +12,7 @@
    the following line takes over. *)
 From Coq Require Import ZArith List Bool Lia.
 Import ListNotations.
-From Urwid Require Import PyBase TextLayout TextLayoutFacts TextLayoutProofs TextLayoutTop.
+From Urwid Require Import PyBase TextLayout TextLayoutFacts TextLayoutProofs TextLayoutTop TextLayoutNatural.
 Open Scope Z_scope.
 
 Definition width_fn (cw : Z -> Z) : Prop := (forall c, 0 <= cw c <= 2) /\ cw SP = 1.
@@ -146,6 +146,16 @@ Theorem pack_rows_eq_rows :
     text_rows cw t width align wrap ell = LOk n -> text_pack cw t width align wrap ell = LOk (c, r) -> r = n.
 Proof. intros cw t width align wrap ell. exact (pack_rows_eq_rows cw t width align ell wrap). Qed.
 Print Assumptions pack_rows_eq_rows.
+
+(* --- the same clause for the natural (FIXED) size: pack(()) reports (cols, rows) - cols the widest
+       paragraph, rows the number of newlines + 1 - and at that width (when it is at least one column)
+       the layout has exactly that many lines, in every wrap mode and alignment: rows((cols,)) = rows --- *)
+Theorem natural_size_rows :
+  forall cw t align wrap ell, (forall c, 0 <= cw c <= 2) ->
+    1 <= fst (text_pack_fixed cw t) ->
+    text_rows cw t (fst (text_pack_fixed cw t)) align wrap ell = LOk (snd (text_pack_fixed cw t)).
+Proof. intros cw t align wrap ell. exact (natural_size_rows cw t align wrap ell). Qed.
+Print Assumptions natural_size_rows.
 
 (* --- clause "a double-width character in a one-column space produces an empty line, not an error",
        and the empty line is produced in no other situation --- *)
